@@ -128,6 +128,23 @@ def prove(res, qualnames, second_backend=False, crosscheck_limit=1500):
         res.functions[q] = status if status != 'failed' else 'failed'
         if status in ('out-of-subset', 'proof-lost'):
             res.notes.append('%s: %s (%s) -- downgraded to the bounded stand-in for this run' % (q, status, info.get('reason')))
+            # its contract is only ASSUMED by its callers in this run: exercise the run-time form on the real function
+            if status == 'out-of-subset' and q not in reg.lemmas:
+                try:
+                    rt = runtime.exercise(reg.contracts[q], reg, limit=crosscheck_limit)
+                except Exception as exc:
+                    res.notes.append('%s: run-time form not exercised (%s: %s)' % (q, type(exc).__name__, exc))
+                    rt = None
+                if rt is not None:
+                    res.evaluations += rt['evaluations']
+                    bad = [f for f in rt['failures'] if f['kind'] != 'harness']
+                    if bad:
+                        f = bad[0]
+                        res.violation('contract of %s (outside the verifiable subset on this tree: %s) fails natively; failing input: %s -> %s'
+                                      % (q, info.get('reason'), f['args'], f['detail']),
+                                      {'function': q, 'obligation': 'run-time form of the contract of %s' % q, 'kind': 'native-contract-failure',
+                                       'witness_args': f['args'], 'witness_detail': f['detail'], 'replay_kind': 'runtime-contract',
+                                       'ghosts': f.get('ghosts')})
             continue
         if status == 'vacuous':
             raise CheckerDefect('vacuous proof for %s: %s' % (q, info.get('reason')))
